@@ -370,7 +370,8 @@ class A:
             self.n, self.d = n, d
             return
         n = CTX.reduce(n)
-        d = CTX.reduce(d)
+        if d.nterms() > 1:
+            d = CTX.reduce(d)         # a monomial denominator is kept as it is (r^2, s^2 stay visible as squares)
         if d.is_zero():
             raise OutOfSubset("denominator is identically zero")
         if n.is_zero():
@@ -458,6 +459,10 @@ class A:
         r = self._add(o)
         if r.sg is None:
             sg = _sg_add(self.sign(), o.sign())
+            if sg not in ("+", "-", "0"):
+                nf = r._sign()            # normal form / precondition table may know more (strictness)
+                if nf is not None and (sg is None or nf in ("+", "-", "0")):
+                    sg = nf
             if sg is not None:
                 r.sg = sg
         return r
@@ -970,6 +975,9 @@ class Ang:
         return lo, hi
 
     def half(self):
+        th = getattr(self, "tanhalf", None)
+        if th is not None:
+            return HalfAng(self)
         b = self.bounds()
         if b is None:
             raise OutOfSubset("half of an angle without known range")
@@ -1094,6 +1102,31 @@ class Ang:
 
     def __bool__(self):
         raise OutOfSubset("symbolic value used in control flow")
+
+
+class HalfAng(Ang):
+    """half of an angle theta in (0, pi) whose tan(theta/2) is known rationally; cos/sin are created on demand"""
+
+    def __init__(self, parent):
+        self.parent = parent
+        self.lin = None if parent.lin is None else {k: v / 2 for k, v in parent.lin.items()}
+        self.tan_override = parent.tanhalf
+        self._c = self._s = None
+
+    @property
+    def c(self):
+        if self._c is None:
+            self._c = LIB.sqrt((1 + self.parent.c) * Fr(1, 2))
+        return self._c
+
+    @property
+    def s(self):
+        if self._s is None:
+            self._s = LIB.sqrt((1 - self.parent.c) * Fr(1, 2))
+        return self._s
+
+    def numval(self, env):
+        return self.parent.numval(env) / 2
 
 
 def shift_window(a, k):
@@ -1380,6 +1413,25 @@ class Lib:
             return ctx.memo[key]
         n, d = a.n, a.d
         s_arg = a.sign()
+        if not d.is_one() and d.nterms() == 1:
+            # monomial denominator c*prod v^e:  sqrt(n/d) = sqrt(n * c * prod v^(e%2)) / (c * prod |v|^(e//2 + e%2))
+            (dm, dc), = d.t.items()
+            odd = tuple((v, 1) for v, e in dm if e % 2)
+            den = A.of(abs(dc))
+            for v, e in dm:
+                av = self.absolute(A.var(v))
+                for _ in range(e // 2 + e % 2):
+                    den = den * av
+            rad = A(n * Poly({odd: dc if dc > 0 else -dc}))
+            if dc < 0:
+                rad = -rad
+            if rad.sg is None and s_arg in ("+", "0+"):
+                rad.sg = s_arg
+            if any(ctx.sign.get(v) not in ("+", "-") for v, _ in dm):
+                ctx.need("sqrt: denominator != 0", f_rel(Poly({dm: Fr(1)}), "!="))
+            res = self.sqrt(rad) * den.recip()
+            ctx.memo[key] = res
+            return res
         if not d.is_one():
             # sqrt(n/d) = sqrt(n*d)/|d|
             dA = A(d)
@@ -1473,6 +1525,9 @@ class Lib:
 
     def tan(self, a):
         if isinstance(a, Ang):
+            t = getattr(a, "tan_override", None)
+            if t is not None:
+                return TanV(num=t.n and A(t.n), den=A(t.d))
             return TanV(a)
         raise OutOfSubset(f"tan({type(a).__name__})")
 
